@@ -31,3 +31,15 @@ START = Root
 
 def grammar(**kw):
     return extract_grammar(list(CLASSES), START, **kw)
+
+
+def g_BI(**kw):
+    return extract_grammar([BI], START, **kw)
+
+
+def g_BFB(**kw):
+    return extract_grammar([BFB], START, **kw)
+
+
+def g_BS(**kw):
+    return extract_grammar([BS], START, **kw)
